@@ -639,7 +639,9 @@ class GibbsTempo(BaseAPIClass):
                 self._dynamics.add(self._time(ii), state)
             #  dynamics now has three entries including initial state
 
-        num_step = self._parameters.n_steps - 2
+        # steps still to be taken (none if the computation is already complete)
+        num_step = max(
+            0, self._parameters.n_steps - 1 - self._backend_instance.step)
 
         progress = get_progress(progress_type)
         title = "--> GibbsTEMPO computation:"
